@@ -10,7 +10,8 @@ Register r07("C07", [](Tier t) {
     // h[0]: max thread count - 1 (0..3, thorough 0..5)
     auto ops = genOps({{START_TASK, 10, 0, 2, 0}, {START_FUNCTOR, 3, 0, 2, 0}, {CLEAR, 3, 0, 0, 0}, {DRAIN, 3, 0, 0, 0},
                        {STOP, 2, 0, 0, 0}, {GETTERS, 1, 0, 0, 0}, {OWNER_YIELD, 3, 0, 0, 0}}, n);
-    return genCase("C07", genHeader({{0, t == THOROUGH ? 5 : 3}}), ops, genSched(sl));
+    return rc::gen::weightedOneOf<Case>({{4, genCase("C07", genHeader({{0, t == THOROUGH ? 5 : 3}, {0, 0}, {0, 0}}), ops, genSched(sl))},
+                                         {1, genCase("C07", genHeader({{0, t == THOROUGH ? 5 : 3}, {0, 0}, {1, 1}}), ops, genSchedPCT())}});
 });
 Register r08("C08", [](Tier t) {
     int n = t == THOROUGH ? 20 : 10, sl = t == THOROUGH ? 240 : 120;
@@ -21,12 +22,14 @@ Register r08("C08", [](Tier t) {
     auto opsx = genOps({{START_TASK, 9, 0, 2, 0}, {ADVANCE_TIME, 6, 0, 3, 0}, {UPDATE, 6, 0, 0, 1}, {STOP, 4, 0, 0, 0}, {OWNER_YIELD, 4, 0, 0, 0},
                         {START_FUNCTOR, 1, 0, 2, 0}, {DRAIN, 1, 0, 0, 0}, {GETTERS, 2, 0, 0, 0}, {CLEAR, 1, 0, 0, 0}}, n + 4);
     // h[0]: max thread count - 1; h[1]: expiry selector (0: non-expiring, 1..3: 0 / 5 / 20 virtual ms)
-    return rc::gen::weightedOneOf<Case>({{3, genCase("C08", genHeader({{0, t == THOROUGH ? 5 : 2}, {0, 0}}), ops, genSched(sl))},
-                                         {2, genCase("C08", genHeader({{0, t == THOROUGH ? 5 : 3}, {1, 3}}), opsx, genSched(sl))}});
+    return rc::gen::weightedOneOf<Case>({{3, genCase("C08", genHeader({{0, t == THOROUGH ? 5 : 2}, {0, 0}, {0, 0}}), ops, genSched(sl))},
+                                         {2, genCase("C08", genHeader({{0, t == THOROUGH ? 5 : 3}, {1, 3}, {0, 0}}), opsx, genSched(sl))},
+                                         {1, genCase("C08", genHeader({{0, t == THOROUGH ? 5 : 2}, {0, 3}, {1, 1}}), opsx, genSchedPCT())}});
 });
 Register r20("C20", [](Tier t) {
     // h: callable kind (fn pointer | small closure | large closure | Runnable), #lvalue args, via constructor, #isFinished polls
-    return genCase("C20", genHeader({{0, 3}, {0, 2}, {0, 1}, {0, 3}}), rc::gen::just(std::vector<Op>{}), genSched(t == THOROUGH ? 80 : 40));
+    return rc::gen::weightedOneOf<Case>({{4, genCase("C20", genHeader({{0, 3}, {0, 2}, {0, 1}, {0, 3}, {0, 0}}), rc::gen::just(std::vector<Op>{}), genSched(t == THOROUGH ? 80 : 40))},
+                                         {1, genCase("C20", genHeader({{0, 3}, {0, 2}, {0, 1}, {0, 3}, {1, 1}}), rc::gen::just(std::vector<Op>{}), genSchedPCT())}});
 });
 
 // ---- small-scope program spaces
